@@ -85,6 +85,18 @@ def run_batch(binp, model, profile, seed, count, max_ops, max_sess, corpus, chec
     return json.load(open(out)), log
 
 
+def gen():
+    """Regenerate coq/gen/GenRouter.v from the repository's current source.
+    Returns an error text, or None."""
+    binp, log = common.go_build("./cmd/genrouter")
+    if not binp:
+        return "genrouter does not build: " + log[-1500:]
+    rc, out = common.run([binp, common.REPO, os.path.join(common.COQ, "gen", "GenRouter.v")], timeout=120)
+    if rc != 0:
+        return out
+    return None
+
+
 def replay(pid, path):
     model, log = router_build.build_model()
     binp, log2 = router_build.build_harness()
@@ -108,12 +120,14 @@ def main(pid, tier, replay_path=None):
     tcfg = TIERS[tier]
     trusted = [
         "Coq 8.16.1 kernel (coqc); vm_compute in _refuted/Example witnesses only; no native_compute",
-        "router-core model coq/Router/{Base,Msg,Broker,Dealer,Realm}.v is hand-written; tied to /repo by the correspondence run of this check (no translator for this family)",
+        "router-core model coq/Router/{Base,Msg,Broker,Dealer,Realm}.v is hand-written; tied to /repo by the correspondence run of this check; its constants (URIs, option keys, feature names, message codes, meta procedure registration order) are tied by the translator go/cmd/genrouter + Router/GenConform.v, re-checked on every run",
         "extraction: ExtrOcamlBasic only (bool, option, unit, list, prod, sumbool, sumor to OCaml types; andb/orb inlined); no Extract Constant of our own; OCaml 4.13.1; ocaml/router/driver.ml (parsing, printing)",
         "harness go/drive: scenario generator, testing/synctest semantics (quiescence = all goroutines durably blocked, virtual clock), canonicaliser (session ids, publication ids, timestamps, numeric kinds, map-iteration order)",
         "payload passthru (ppt_*) options, queue overflow (trySend drops), transports and serializers are outside this model (C04/C07/C14/C15)",
     ]
 
+    # 0. translator part: constants the model depends on, regenerated from the source
+    gen_err = gen()
     # 1. builds
     model, mlog = router_build.build_model()
     if not model:
@@ -122,7 +136,7 @@ def main(pid, tier, replay_path=None):
         return 3
     binp, hlog = router_build.build_harness()
     # 2. proof obligations
-    pr = common.coq_props(pid)
+    pr = common.coq_props(pid, extra_files=["Router/GenConform.v"])
     obligations, discharged = len(pr["obligations"]), len(pr["discharged"])
     for name, text in sorted(pr["assumptions"].items()):
         trusted.append("Print Assumptions %s: %s" % (name, text))
@@ -137,6 +151,8 @@ def main(pid, tier, replay_path=None):
         broken.append(dict(kind="hygiene", detail=hyg[:10]))
     if not binp:
         broken.append(dict(kind="harness-build", detail=hlog[-3000:]))
+    if gen_err:
+        broken.append(dict(kind="translator", detail=gen_err[-1500:]))
 
     stats_all = dict(scenarios=0, ops=0, distinct=0, nontrivial=0, op_kinds={}, delivered={}, tags={}, foreign_mismatches=0, sessions=0)
     samples = []
